@@ -21,7 +21,7 @@ from harness import log
 
 class Unit:
     def __init__(self, name, groups=(), props=(), corr=(), oracle=None, thorough_props=(), note='',
-                 findings=(), always_oracle=False):
+                 findings=(), always_oracle=False, custom_corr=None):
         self.name = name
         self.groups = list(groups)
         self.props = list(props)              # coq/props files (relative to coq/)
@@ -33,6 +33,7 @@ class Unit:
         #   positive theorem (compiles only once the defect is repaired), replay: callable() -> dict or None
         #   (re-runs the witness on the REAL implementation; returns the observed failure or None)}
         self.findings = list(findings)
+        self.custom_corr = custom_corr        # callable(rng, tier, prop) -> (case files, n goals, disagreements, sample)
         self.always_oracle = always_oracle    # no theorem covers this unit: the oracle is its only check (class C)
 
 
@@ -82,8 +83,19 @@ def run_units(report, units, tier, rng, extra_after=None):
                 corr_disagree.setdefault(u.name, []).extend(dis)
             if cases:
                 report.samples.append({'unit': u.name, 'correspondence_case': cases[0]})
+        if u.custom_corr:
+            try:
+                files, ng, dis, sample = u.custom_corr(rng, tier, report.prop)
+            except Exception as ex:
+                files, ng, dis, sample = [], 0, [{'why': 'correspondence harness error: %r' % ex}], None
+            case_files.setdefault(u.name, []).extend(files)
+            report.corr_goals += ng
+            if dis:
+                corr_disagree.setdefault(u.name, []).extend(dis)
+            if sample:
+                report.samples.append({'unit': u.name, 'correspondence_case': sample})
         if goals_all:
-            case_files[u.name] = H.write_case_files('%s_%s' % (report.prop, u.name), ' '.join(sorted(imports)), goals_all)
+            case_files.setdefault(u.name, []).extend(H.write_case_files('%s_%s' % (report.prop, u.name), ' '.join(sorted(imports)), goals_all))
             report.corr_goals += len(goals_all)
 
     # ---- build
